@@ -439,6 +439,29 @@ class GateScoreboard:
         return None
 
 
+class XbarScoreboard:
+    """Crossbar(n) with demux.source_k wired to mux.sink_k; letter[5] = demux.sel, letter[6] = mux.sel.  Both
+    selectors on the same existing port: a wire.  Otherwise blocked both ways (nothing accepted or delivered)."""
+
+    def __init__(self, n):
+        self.n = n
+
+    def observe(self, letter, outs):
+        v, d, f, l, rdy, sd, sm = letter[:7]
+        sready, ovalid, od, of, ol = outs[:5]
+        if sd == sm and sd < self.n:
+            if bool(ovalid) != bool(v) or bool(sready) != bool(rdy):
+                return "selectors agree on port %d but the path is not a wire" % sd
+            if ovalid and (od, of, ol) != (d, f, l):
+                return "delivered %r, expected %r" % ((od, of, ol), (d, f, l))
+        else:
+            if ovalid:
+                return "source valid although demux.sel = %d, mux.sel = %d" % (sd, sm)
+            if sready:
+                return "sink ready although demux.sel = %d, mux.sel = %d (token would be lost)" % (sd, sm)
+        return None
+
+
 class MapScoreboard:
     """Combinational element with a data function `fn` (Cast): handshake and flags of a wire, data = fn(data)."""
 
